@@ -30,7 +30,20 @@ import (
 	"github.com/scionproto/scion/pkg/scrypto"
 	"github.com/scionproto/scion/pkg/scrypto/cppki"
 	"github.com/scionproto/scion/private/trust"
+
+	"verifharness/vlib"
 )
+
+// Rand returns the engine's PRNG for a seed.  vlib.NewRand(seed) starts SplitMix64 at
+// seed*golden+c, so consecutive seeds are the same stream shifted by one draw; the seed is
+// therefore scrambled first so that different seeds give unrelated streams.
+func Rand(seed int64) *vlib.Rand {
+	z := uint64(seed) + 0x9E3779B97F4A7C15
+	z = (z ^ (z >> 30)) * 0xBF58476D1CE4E5B9
+	z = (z ^ (z >> 27)) * 0x94D049BB133111EB
+	z ^= z >> 31
+	return vlib.NewRand(z)
+}
 
 // ---------------------------------------------------------------------------------------
 // keys
